@@ -30,14 +30,17 @@ Proof. intros H. exact (embed_real_add steps plo phi H d x y). Qed.
 Theorem C07_real_mul steps plo phi d x y : (0 < steps)%nat -> d <> DF ->
   pmul RN steps plo phi d (embed steps (x, x)) (embed steps (y, y)) = Ok (embed steps (x * y, x * y)).
 Proof. intros H. exact (embed_real_mul steps plo phi H d x y). Qed.
-(* interval + precise distribution (quantiles q): the distribution shifted by the interval, under perfect and opposite dependence *)
+(* interval + precise distribution (quantiles q): the distribution shifted by the interval, under perfect, opposite and no (Frechet) dependence assumption *)
 Theorem C07_shift_perfect steps plo phi a (q : list R) : wfp a -> List.length q = steps -> Rsorted q ->
   padd RN steps plo phi DP (embed steps a) (q, q) = Ok (map (Rplus (fst a)) q, map (Rplus (snd a)) q).
 Proof. exact (shift_perfect steps plo phi a q). Qed.
 Theorem C07_shift_opposite steps plo phi a (q : list R) : wfp a -> List.length q = steps -> Rsorted q ->
   padd RN steps plo phi DO (embed steps a) (q, q) = Ok (map (Rplus (fst a)) q, map (Rplus (snd a)) q).
 Proof. exact (shift_opposite steps plo phi a q). Qed.
-Print Assumptions C07_shift_opposite.
+Theorem C07_shift_frechet steps plo phi a (q : list R) : wfp a -> List.length q = steps -> Rsorted q ->
+  padd RN steps plo phi DF (embed steps a) (q, q) = Ok (map (Rplus (fst a)) q, map (Rplus (snd a)) q).
+Proof. exact (shift_frechet steps plo phi a q). Qed.
+Print Assumptions C07_shift_frechet.
 (* operator forwarding of Dempster-Shafer structures (table translated from mixins.py on every run): every forward dunder computes
    self op other and every reflected dunder other op self on the p-box views, for any p-box calculus `bin` *)
 Theorem C07_dss_forward (V : Type) (bin : string -> V -> V -> V) fwd refl : In (fwd, refl) refl_names ->
